@@ -124,7 +124,22 @@ def bound(v, form):
     return ts
 
 
-def config_dict(config, form="iso", rename=None):
+def stale_inputs(table):
+    """input-named parameters left in a configuration (legacy style): whatever the stream supplies must win over
+    them, so they are only written for the inputs the table has; the values are chosen to give other flags"""
+    n = len(table["t"])
+    kw = {"inp": [1000.0 + 7 * (i % 3) for i in range(n)]}
+    if has_time(table):
+        kw["tinp"] = [int(TBASE + 86400 * 400 + 3 * i) for i in range(n)]
+    if table["z"]:
+        kw["zinp"] = [float(-i) for i in range(n)]
+    if table["lat"]:
+        kw["lat"] = [80.0] * n
+        kw["lon"] = [170.0 - i for i in range(n)]
+    return kw
+
+
+def config_dict(config, form="iso", rename=None, stale=None):
     ctxs = []
     for c in config:
         d = {"streams": {}}
@@ -138,7 +153,10 @@ def config_dict(config, form="iso", rename=None):
         for e in c["entries"]:
             sid = (rename or {}).get(e["stream"], e["stream"])
             mod = FN2MOD.get(e["fn"], "qartod")
-            d["streams"].setdefault(sid, {}).setdefault(mod, {})[FN2TEST[e["fn"]]] = entry_kwargs(e)
+            kw = entry_kwargs(e)
+            if stale is not None:
+                kw.update(stale_inputs(stale))
+            d["streams"].setdefault(sid, {}).setdefault(mod, {})[FN2TEST[e["fn"]]] = kw
         ctxs.append(d)
     return {"contexts": ctxs}
 
@@ -278,6 +296,9 @@ def run_frontend(frontend, table, config, workdir, form="iso", max_orders=3, rng
     """-> list of events (dicts without id/rid) for one real run"""
     install()
     ev = [{"ev": "load", "table": table, "config": config, "frontend": frontend}]
+    # "<front end>+stale": the configuration also carries input-named parameters (inp, tinp, zinp, lat, lon)
+    stale = table if frontend.endswith("+stale") else None
+    frontend = frontend.split("+")[0]
     del PROBE_LOG[:]
     del RUN_LOG[:]
     if frontend in ("qcconfig", "qcconfig_bare"):
@@ -286,7 +307,7 @@ def run_frontend(frontend, table, config, workdir, form="iso", max_orders=3, rng
         try:
             with warnings.catch_warnings():
                 warnings.simplefilter("ignore")
-                cd = config_dict(config, form)
+                cd = config_dict(config, form, stale=stale)
                 if frontend == "qcconfig_bare":
                     cd = cd["contexts"][0]["streams"][sid]          # {module: {test: kwargs}}
                 qc = qc_config.QcConfig(cd, default_stream_key=sid)
@@ -308,7 +329,7 @@ def run_frontend(frontend, table, config, workdir, form="iso", max_orders=3, rng
     results, exc = [], ""
     try:
         stream = make_stream(frontend, table, config, workdir)
-        cfg = Config(config_dict(config, form))
+        cfg = Config(config_dict(config, form, stale=stale))
         gen = stream.run(cfg)
         for r in gen:
             results.append(r)
